@@ -157,6 +157,7 @@ pub fn kact() -> impl Strategy<Value = KAct> {
         1 => Just(KAct::Flush),
         2 => Just(KAct::SqpollConsume),
         1 => Just(KAct::SqpollIdle),
+        1 => (0u8..4).prop_map(|errno| KAct::FailEnter { errno }),
     ]
 }
 
